@@ -20,6 +20,7 @@
   and `erase T` is C11.
 -/
 import TypelibModel.Model.Routine
+import TypelibModel.Model.Compile
 import TypelibModel.Model.Leaf
 import TypelibModel.Lemmas.Core
 import TypelibModel.Lemmas.RoundTrip
@@ -671,6 +672,451 @@ theorem leaf_classes_unmarshal :
 
 theorem leaf_classes_marshal :
     allScalars.all (fun s => Dispatch.expectedM.lookup (scalarKey s) == some (leafClassM s)) = true := by decide
+
+
+/-! ## The routine compiler is adequate (Model/Compile.lean)
+
+  `compile d env t` is the model of `unmarshaller(t)` / `marshaller(t)`.  For EVERY annotation whose
+  classes are declared and whose Literal members are primitives (`compilable`, decidable) over an
+  environment whose field annotations are (`compilableEnv`), the validator accepts the compiled tree
+  for the erased annotation — hence (`compile_sound_*`) the compiled tree computes the denotation on
+  every input, and the compiled routine graph of a root with cycles passes `graphOk`. -/
+
+theorem isNone_erase : ∀ t : Ty, (erase t).isNone = t.isNone
+  | .wrap _ t => by simp only [erase, Ty.isNone]; exact isNone_erase t
+  | .scalar _ => rfl
+  | .none => rfl
+  | .any => rfl
+  | .enum _ => rfl
+  | .literal _ => rfl
+  | .coll _ _ => by simp [erase, Ty.isNone]
+  | .tuple _ => by simp [erase, Ty.isNone]
+  | .dict _ _ => by simp [erase, Ty.isNone]
+  | .union _ => by simp [erase, Ty.isNone]
+  | .cls _ => rfl
+
+theorem eraseList_eq_map : ∀ ts : List Ty, eraseList ts = ts.map erase
+  | [] => rfl
+  | t :: ts => by simp [eraseList, eraseList_eq_map ts]
+
+theorem nullable_erase (ms : List Ty) : nullable (eraseList ms) = nullable ms := by
+  simp only [nullable, eraseList_eq_map, List.any_map]
+  congr 1
+  funext m
+  exact isNone_erase m
+
+theorem filter_erase (ms : List Ty) :
+    (eraseList ms).filter (fun m => !m.isNone) = eraseList (ms.filter (fun m => !m.isNone)) := by
+  induction ms with
+  | nil => rfl
+  | cons m ms ih =>
+    simp only [eraseList, List.filter, isNone_erase]
+    cases m.isNone <;> simp [eraseList, ih]
+
+theorem unionMembers_erase (d : Dir) (ms : List Ty) :
+    unionMembers d (eraseList ms) = eraseList (unionMembers d ms) := by
+  cases d <;> simp only [unionMembers, unionOrder, nullable_erase, filter_erase]
+  · cases nullable ms <;> simp [eraseList, erase]
+  · cases nullable ms <;> simp
+
+theorem litEq_refl : ∀ vs : List Val, vs.all isPrim = true → litEq vs vs = true
+  | [], _ => rfl
+  | v :: vs, h => by
+    simp only [List.all_cons, Bool.and_eq_true] at h
+    simp [litEq, h.1, isPrim_beq_self h.1, litEq_refl vs h.2]
+
+theorem sameSet_refl (a : List Str) : sameSet a a = true := by
+  simp [sameSet, List.all_eq_true]
+
+theorem cls_eraseEnv (env : Env) (c : Nat) : (eraseEnv env).cls c = (env.cls c).map eraseClass := by
+  simp [Env.cls, eraseEnv, List.getElem?_map]
+
+theorem fieldsOf_eraseEnv (env : Env) (c : Nat) : fieldsOf (eraseEnv env) c = (fieldsOf env c).map eraseField := by
+  simp only [fieldsOf, cls_eraseEnv]
+  cases env.cls c <;> simp [eraseClass]
+
+section compile
+variable {d : Dir} {K : Ty → Bool} {E : Env}
+
+theorem adequates_keep : ∀ (ts : List Ty) (rs : List Routine), adequates d K E (eraseList ts) rs = true →
+    adequates d K E (eraseList (ts.filter (fun m => !m.isNone))) (keepNonNone ts rs) = true
+  | [], [], _ => rfl
+  | [], _ :: _, h => by simp [eraseList, adequates] at h
+  | _ :: _, [], h => by simp [eraseList, adequates] at h
+  | t :: ts, r :: rs, h => by
+    simp only [eraseList, adequates, Bool.and_eq_true] at h
+    cases ht : t.isNone with
+    | true => simp only [List.filter, ht, Bool.not_true, keepNonNone, if_true]; exact adequates_keep ts rs h.2
+    | false =>
+      simp only [List.filter, ht, Bool.not_false, keepNonNone, Bool.false_eq_true, if_false, eraseList, adequates,
+        Bool.and_eq_true]
+      exact ⟨h.1, adequates_keep ts rs h.2⟩
+
+mutual
+  /-- One level: if `F` serves every declared class reference adequately, `compileWith F` serves every
+      compilable annotation adequately. -/
+  theorem compileWith_adequate {env : Env} {F : Nat → Routine}
+      (hF : ∀ c, (env.cls c).isSome = true → adequate d K E (.cls c) (F c) = true) :
+      ∀ t : Ty, compilable env t = true → adequate d K E (erase t) (compileWith d F t) = true
+    | .scalar s, _ => by simp [erase, compileWith, adequate]
+    | .none, _ => by simp [erase, compileWith, adequate]
+    | .any, _ => by simp [erase, compileWith, adequate]
+    | .enum c, _ => by simp [erase, compileWith, adequate]
+    | .literal vs, h => by
+      simp only [compilable] at h
+      simp [erase, compileWith, adequate, litEq_refl vs h]
+    | .coll k e, h => by
+      simp only [compilable] at h
+      simp [erase, compileWith, adequate, compileWith_adequate hF e h]
+    | .tuple es, h => by
+      simp only [compilable] at h
+      simp [erase, compileWith, adequate, compileList_adequate hF es h]
+    | .dict k v, h => by
+      simp only [compilable, Bool.and_eq_true] at h
+      simp [erase, compileWith, adequate, compileWith_adequate hF k h.1, compileWith_adequate hF v h.2]
+    | .union ms, h => by
+      simp only [compilable] at h
+      have hl := compileList_adequate hF ms h
+      simp only [erase, compileWith, adequate, Bool.and_eq_true]
+      refine ⟨?_, ?_⟩
+      · cases d <;> simp [unionFlagOk, unionFlag, nullable_erase]
+      · rw [unionMembers_erase]
+        cases d <;> simp only [unionMembers, unionOrder, unionRoutines]
+        · cases hn : nullable ms <;> simp only [Bool.false_eq_true, if_false, if_true]
+          · exact hl
+          · simp only [eraseList, erase, adequates, adequate, Bool.true_and]
+            exact adequates_keep ms _ hl
+        · cases hn : nullable ms <;> simp only [Bool.false_eq_true, if_false, if_true]
+          · exact hl
+          · exact adequates_keep ms _ hl
+    | .cls c, h => by
+      simp only [compilable] at h
+      simpa [erase, compileWith] using hF c h
+    | .wrap _ t, h => by
+      simp only [compilable] at h
+      simpa [erase, compileWith] using compileWith_adequate hF t h
+  theorem compileList_adequate {env : Env} {F : Nat → Routine}
+      (hF : ∀ c, (env.cls c).isSome = true → adequate d K E (.cls c) (F c) = true) :
+      ∀ ts : List Ty, compilableList env ts = true → adequates d K E (eraseList ts) (compileList d F ts) = true
+    | [], _ => rfl
+    | t :: ts, h => by
+      simp only [compilableList, Bool.and_eq_true] at h
+      simp [eraseList, compileList, adequates, compileWith_adequate hF t h.1, compileList_adequate hF ts h.2]
+end
+
+theorem compileFields_adequate {G : Ty → Routine} :
+    ∀ fields : List (Str × Ty), (∀ f ∈ fields, adequate d K E (erase f.2) (G f.2) = true) →
+      adequateFields d K E (fields.map eraseField) (fields.map (compileField G)) = true
+  | [], _ => rfl
+  | f :: fs, h => by
+    obtain ⟨a, t⟩ := f
+    simp only [List.map_cons, eraseField, compileField, adequateFields, Bool.and_eq_true, beq_self_eq_true, true_and]
+    exact ⟨h (a, t) (by simp), compileFields_adequate fs (fun f hf => h f (by simp [hf]))⟩
+
+end compile
+
+theorem compilableEnv_fields {env : Env} (hE : compilableEnv env = true) {c : Nat} {ci : ClassInfo}
+    (hc : env.cls c = some ci) : ∀ f ∈ ci.fields, compilable env f.2 = true := by
+  unfold compilableEnv at hE
+  rw [List.all_eq_true] at hE
+  have := hE ci (by unfold Env.cls at hc; exact List.mem_of_getElem? hc)
+  unfold compilableClass at this
+  rw [List.all_eq_true] at this
+  exact fun f hf => this f hf
+
+/-- Every declared class reference is served adequately, whatever the path and the remaining fuel. -/
+theorem compileCls_adequate (d : Dir) (K : Ty → Bool) (env : Env) (hE : compilableEnv env = true)
+    (hK : ∀ c, (env.cls c).isSome = true → K (.cls c) = true) :
+    ∀ (n : Nat) (seen : List Nat) (c : Nat), (env.cls c).isSome = true →
+      adequate d K (eraseEnv env) (.cls c) (compileCls d env n seen c) = true := by
+  have hdel : ∀ c, (env.cls c).isSome = true → adequate d K (eraseEnv env) (.cls c) (.delayed (.cls c)) = true := by
+    intro c hc
+    simp [adequate, erase, Ty.beq, hK c hc]
+  intro n
+  induction n with
+  | zero => intro seen c hc; simpa [compileCls] using hdel c hc
+  | succ n ih =>
+    intro seen c hc
+    unfold compileCls
+    by_cases hs : seen.contains c = true
+    · simp only [hs, if_true]; exact hdel c hc
+    · simp only [hs, Bool.false_eq_true, if_false]
+      cases hci : env.cls c with
+      | none => simp [hci] at hc
+      | some ci =>
+        simp only [adequate, Bool.and_eq_true, beq_self_eq_true, true_and]
+        refine ⟨?_, ?_⟩
+        · simp only [structOk, cls_eraseEnv, hci, Option.map_some]
+          cases d
+          · simp only [reqOk, reqFor, eraseClass]
+            by_cases hfl : (ci.flavour == Flavour.typeddict) = true <;> simp [hfl, sameSet_refl]
+          · rfl
+        · rw [fieldsOf_eraseEnv]
+          simp only [fieldsOf, hci]
+          apply compileFields_adequate
+          intro f hf
+          exact compileWith_adequate (env := env) (ih (c :: seen)) f.2 (compilableEnv_fields hE hci f hf)
+
+/-- **The compiler is adequate** (both directions, any admissible-target set containing the declared
+    classes).  Side conditions, both decidable: `compilableEnv env`, `compilable env t`. -/
+theorem compile_adequate (d : Dir) (K : Ty → Bool) (env : Env) (t : Ty)
+    (hK : ∀ c, (env.cls c).isSome = true → K (.cls c) = true)
+    (hE : compilableEnv env = true) (ht : compilable env t = true) :
+    adequate d K (eraseEnv env) (erase t) (compile d env t) = true :=
+  compileWith_adequate (env := env) (compileCls_adequate d K env hE hK (env.length + 1) []) t ht
+
+theorem compile_adequate_unmarshal (env : Env) (t : Ty) (hE : compilableEnv env = true)
+    (ht : compilable env t = true) : adequateU (eraseEnv env) (erase t) (compileU env t) = true :=
+  compile_adequate .u anyTarget env t (fun _ _ => rfl) hE ht
+
+theorem compile_adequate_marshal (env : Env) (t : Ty) (hE : compilableEnv env = true)
+    (ht : compilable env t = true) : adequateM (eraseEnv env) (erase t) (compileM env t) = true :=
+  compile_adequate .m anyTarget env t (fun _ _ => rfl) hE ht
+
+/-- **The compiled tree computes the denotation** on every input and at every fuel. -/
+theorem compile_sound_unmarshal (env : Env) (L : Leaves) (t : Ty) (hE : compilableEnv env = true)
+    (ht : compilable env t = true) :
+    ∀ n x, runU (eraseEnv env) L n (compileU env t) x = um (eraseEnv env) L n (erase t) x :=
+  adequate_sound_unmarshal (eraseEnv env) L (erase t) (compileU env t) (compile_adequate_unmarshal env t hE ht)
+
+theorem compile_sound_marshal (env : Env) (L : Leaves) (t : Ty) (hE : compilableEnv env = true)
+    (ht : compilable env t = true) :
+    ∀ n x, runM (eraseEnv env) L n (compileM env t) x = mar (eraseEnv env) L n (erase t) x :=
+  adequate_sound_marshal (eraseEnv env) L (erase t) (compileM env t) (compile_adequate_marshal env t hE ht)
+
+
+/-! ### The compiled routine graph of a root (cycles included) passes `graphOk` -/
+
+theorem compileWith_not_delayed {d : Dir} {F : Nat → Routine} (hF : ∀ c, (F c).isDelayed = false) :
+    ∀ t : Ty, (compileWith d F t).isDelayed = false
+  | .wrap _ t => by simp only [compileWith]; exact compileWith_not_delayed hF t
+  | .cls c => by simpa [compileWith] using hF c
+  | .scalar _ => rfl
+  | .none => rfl
+  | .any => rfl
+  | .enum _ => rfl
+  | .literal _ => rfl
+  | .coll _ _ => rfl
+  | .tuple _ => rfl
+  | .dict _ _ => rfl
+  | .union _ => rfl
+
+/-- A root is never a proxy: the path is empty when the root's own class is compiled. -/
+theorem compile_not_delayed (d : Dir) (env : Env) (t : Ty) : (compile d env t).isDelayed = false := by
+  apply compileWith_not_delayed
+  intro c
+  simp only [compileCls, List.contains_nil, Bool.false_eq_true, if_false]
+  cases env.cls c <;> rfl
+
+theorem hasKey_classKeys (d : Dir) (env : Env) : ∀ n c, c < n → RGraph.hasKey (classKeys d env n) (.cls c) = true := by
+  intro n
+  induction n with
+  | zero => intro c h; omega
+  | succ n ih =>
+    intro c h
+    simp only [classKeys, RGraph.hasKey, List.any_cons, Bool.or_eq_true]
+    by_cases hc : c = n
+    · left; subst hc; simp [Ty.beq]
+    · right; exact ih c (by omega)
+
+theorem mem_classKeys (d : Dir) (env : Env) : ∀ n e, e ∈ classKeys d env n →
+    ∃ c, c < n ∧ e = (.cls c, compile d env (.cls c)) := by
+  intro n
+  induction n with
+  | zero => intro e h; simp [classKeys] at h
+  | succ n ih =>
+    intro e h
+    simp only [classKeys, List.mem_cons] at h
+    cases h with
+    | inl h => exact ⟨n, by omega, h⟩
+    | inr h => obtain ⟨c, hc, he⟩ := ih e h; exact ⟨c, by omega, he⟩
+
+theorem cls_isSome_lt {env : Env} {c : Nat} : (env.cls c).isSome = true ↔ c < env.length := by
+  simp [Env.cls]
+
+/-- **The compiled routine graph is validated**: the root's tree and the tree of every class as a root of
+    its own are non-proxies adequate for their keys, every `Delayed` target being a key. -/
+theorem compile_graph_ok (d : Dir) (env : Env) (t : Ty) (hE : compilableEnv env = true)
+    (ht : compilable env t = true) : graphOk d (eraseEnv env) (compileGraph d env t) = true := by
+  have hK : ∀ c, (env.cls c).isSome = true → RGraph.hasKey (compileGraph d env t) (.cls c) = true := by
+    intro c hc
+    simp only [compileGraph, RGraph.hasKey, List.any_cons, Bool.or_eq_true]
+    right
+    exact hasKey_classKeys d env env.length c (cls_isSome_lt.mp hc)
+  simp only [graphOk, List.all_eq_true, Bool.and_eq_true, Bool.not_eq_eq_eq_not, Bool.not_true]
+  intro e he
+  simp only [compileGraph, List.mem_cons] at he
+  cases he with
+  | inl he =>
+    subst he
+    exact ⟨compile_not_delayed d env t, compile_adequate d _ env t hK hE ht⟩
+  | inr he =>
+    obtain ⟨c, hc, rfl⟩ := mem_classKeys d env env.length e he
+    refine ⟨compile_not_delayed d env (.cls c), ?_⟩
+    have := compile_adequate d _ env (.cls c) hK hE (by simp [compilable, cls_isSome_lt.mpr hc])
+    simpa [erase] using this
+
+/-- With `graph_keys_unmarshal`: whatever resolves the proxies by running, for each class, the compiled tree
+    of that class computes the denotation of every key — no assumption about `Delayed` nodes is left. -/
+theorem compile_graph_sound_unmarshal (env : Env) (L : Leaves) (t : Ty) (D : Nat → Ty → Val → R Val)
+    (hE : compilableEnv env = true) (ht : compilable env t = true)
+    (hD : ∀ k r, (k, r) ∈ compileGraph .u env t → ∀ n x, D n k x = runUW (eraseEnv env) L D n r x) :
+    ∀ n x, runUW (eraseEnv env) L D n (compileU env t) x = um (eraseEnv env) L n (erase t) x := by
+  intro n x
+  have hg := compile_graph_ok .u env t hE ht
+  have hmem : (erase t, compileU env t) ∈ compileGraph .u env t := by simp [compileGraph, compileU]
+  rw [← hD _ _ hmem n x]
+  exact graph_keys_unmarshal (eraseEnv env) L D _ hg hD _ _ hmem n x
+
+/-! ### No unrecognised node in an accepted tree -/
+
+section noUnknown
+variable {d : Dir} {K : Ty → Bool} {E : Env}
+
+mutual
+  theorem adequate_noUnknown : ∀ (r : Routine) (t : Ty), adequate d K E t r = true → r.hasUnknown = false
+    | .unknown _, _, h => by simp [adequate] at h
+    | .leaf _, _, _ => rfl
+    | .none, _, _ => rfl
+    | .noop, _, _ => rfl
+    | .literal _, _, _ => rfl
+    | .enumCast _, _, _ => rfl
+    | .delayed _, _, _ => rfl
+    | .union _ rs, t, h => by
+      cases t <;> simp [adequate] at h
+      simp only [Routine.hasUnknown]
+      exact adequates_noUnknown rs _ h.2
+    | .coll _ r, t, h => by
+      cases t <;> simp [adequate] at h
+      simp only [Routine.hasUnknown]
+      exact adequate_noUnknown r _ h.2
+    | .tuple rs, t, h => by
+      cases t <;> simp [adequate] at h
+      simp only [Routine.hasUnknown]
+      exact adequates_noUnknown rs _ h
+    | .dict a b, t, h => by
+      cases t <;> simp [adequate] at h
+      simp [Routine.hasUnknown, adequate_noUnknown a _ h.1, adequate_noUnknown b _ h.2]
+    | .struct _ fs _, t, h => by
+      cases t <;> simp [adequate] at h
+      simp only [Routine.hasUnknown]
+      exact adequateFields_noUnknown fs _ h.2
+  theorem adequates_noUnknown : ∀ (rs : List Routine) (ts : List Ty), adequates d K E ts rs = true →
+      Routine.hasUnknownL rs = false
+    | [], _, _ => rfl
+    | r :: rs, ts, h => by
+      cases ts <;> simp [adequates] at h
+      simp [Routine.hasUnknownL, adequate_noUnknown r _ h.1, adequates_noUnknown rs _ h.2]
+  theorem adequateFields_noUnknown : ∀ (fs : List (Str × Routine)) (ts : List (Str × Ty)),
+      adequateFields d K E ts fs = true → Routine.hasUnknownF fs = false
+    | [], _, _ => rfl
+    | (b, r) :: fs, ts, h => by
+      cases ts with
+      | nil => simp [adequateFields] at h
+      | cons q ts =>
+        obtain ⟨a, t⟩ := q
+        simp only [adequateFields, Bool.and_eq_true] at h
+        simp [Routine.hasUnknownF, adequate_noUnknown r _ h.1.2, adequateFields_noUnknown fs _ h.2]
+end
+
+end noUnknown
+
+/-! ### The well-formed annotations of the other theorems are compilable -/
+
+mutual
+  theorem wfTy_compilable {S : Scalar → Bool} {env : Env} : ∀ t : Ty, wfTy S env t = true → compilable env t = true
+    | .scalar _, _ => rfl
+    | .none, _ => rfl
+    | .any, _ => rfl
+    | .enum _, _ => rfl
+    | .literal vs, h => by simpa [wfTy, compilable] using h
+    | .coll _ e, h => by
+      simp only [wfTy] at h
+      simpa [compilable] using wfTy_compilable e h
+    | .tuple es, h => by
+      simp only [wfTy] at h
+      simpa [compilable] using wfTys_compilable es h
+    | .dict k v, h => by
+      simp only [wfTy, Bool.and_eq_true] at h
+      simp [compilable, wfTy_compilable k h.1.2, wfTy_compilable v h.2]
+    | .union ms, h => by
+      simp only [wfTy, Bool.and_eq_true] at h
+      simpa [compilable] using wfTys_compilable ms h.2
+    | .cls c, h => by simpa [wfTy, compilable] using h
+    | .wrap _ t, h => by
+      simp only [wfTy] at h
+      simpa [compilable] using wfTy_compilable t h
+  theorem wfTys_compilable {S : Scalar → Bool} {env : Env} : ∀ ts : List Ty, wfTys S env ts = true →
+      compilableList env ts = true
+    | [], _ => rfl
+    | t :: ts, h => by
+      simp only [wfTys, Bool.and_eq_true] at h
+      simp [compilableList, wfTy_compilable t h.1, wfTys_compilable ts h.2]
+end
+
+theorem wfEnv_compilableEnv {S : Scalar → Bool} {env : Env} (h : wfEnv S env = true) : compilableEnv env = true := by
+  simp only [wfEnv, List.all_eq_true] at h
+  simp only [compilableEnv, compilableClass, compilableField, List.all_eq_true]
+  intro ci hci f hf
+  have := h ci hci
+  simp only [wfClass, Bool.and_eq_true, List.all_eq_true] at this
+  exact wfTy_compilable f.2 (this.1.2 f hf).2
+
+/-- The statement in the vocabulary of C01 / C13: for every well-formed annotation over a well-formed
+    environment, the compiled unmarshaller is accepted by the validator … -/
+theorem compile_adequate_unmarshal_wf {S : Scalar → Bool} (env : Env) (t : Ty) (hE : wfEnv S env = true)
+    (ht : wfTy S env t = true) : adequateU (eraseEnv env) (erase t) (compileU env t) = true :=
+  compile_adequate_unmarshal env t (wfEnv_compilableEnv hE) (wfTy_compilable t ht)
+
+/-- … and so is the compiled marshaller. -/
+theorem compile_adequate_marshal_wf {S : Scalar → Bool} (env : Env) (t : Ty) (hE : wfEnv S env = true)
+    (ht : wfTy S env t = true) : adequateM (eraseEnv env) (erase t) (compileM env t) = true :=
+  compile_adequate_marshal env t (wfEnv_compilableEnv hE) (wfTy_compilable t ht)
+
+/-! ### The compiler picks the routine class the live dispatch tables pick -/
+
+/-- One class of every flavour (dataclass, named tuple, TypedDict, plain, slots). -/
+def kindEnv : Env := [
+  { flavour := .dataclass, fields := [("a".toList, .scalar .int)] },
+  { flavour := .namedtuple, fields := [("a".toList, .scalar .int)] },
+  { flavour := .typeddict, fields := [("a".toList, .scalar .int)], required := ["a".toList] },
+  { flavour := .plain, fields := [("a".toList, .scalar .int)] },
+  { flavour := .slots, fields := [("a".toList, .scalar .int)] }]
+
+/-- One annotation of every kind of U (every scalar, every collection origin, every flavour, wrappers). -/
+def kindTys : List Ty :=
+  allScalars.map .scalar ++
+  [.none, .any, .enum 9, .literal [.int 1], .union [.scalar .int, .scalar .str], .union [.scalar .int, .none],
+   .coll .list (.scalar .int), .coll .set (.scalar .int), .coll .frozenset (.scalar .int), .coll .deque (.scalar .int),
+   .coll .vartuple (.scalar .int), .tuple [.scalar .int, .scalar .str], .dict (.scalar .str) (.scalar .int),
+   .cls 0, .cls 1, .cls 2, .cls 3, .cls 4, .wrap .newtype (.scalar .int), .wrap .alias (.coll .list (.scalar .int)),
+   .wrap .final (.cls 0)]
+
+/-- For every kind of annotation, the class of the node the model compiler emits is the class the
+    (regenerated, `Dispatch.dispatch_*_ok`) `_HANDLERS` tables select for that kind; a proxy is the
+    routine of a forward reference.  A changed handler table breaks this `decide`. -/
+theorem compile_dispatch_unmarshal :
+    kindTys.all (fun t => Dispatch.expectedU.lookup (kindKey kindEnv t) == some (routineClass .u (compileU kindEnv t))) = true
+    ∧ Dispatch.expectedU.lookup "forwardref" = some (routineClass .u (.delayed .any)) := by decide
+
+theorem compile_dispatch_marshal :
+    kindTys.all (fun t => Dispatch.expectedM.lookup (kindKey kindEnv t) == some (routineClass .m (compileM kindEnv t))) = true
+    ∧ Dispatch.expectedM.lookup "forwardref" = some (routineClass .m (.delayed .any)) := by decide
+
+/-! ### Non-vacuity of the compiler theorems -/
+
+/-- The compiler builds exactly the trees shown above for the recursive `Node`: the proxy sits where the class
+    meets itself. -/
+example : compileU exEnv (.cls 0) = exTree := rfl
+example : compileM exEnv (.cls 0) = exTreeM := rfl
+example : compilableEnv exEnv = true ∧ compilable exEnv (.coll .list (.cls 0)) = true := by decide
+example : graphOk .u (eraseEnv exEnv) (compileGraph .u exEnv (.coll .list (.wrap .alias (.cls 0)))) = true :=
+  compile_graph_ok .u exEnv _ (by decide) (by decide)
+example : ∀ n x, runU (eraseEnv exEnv) (pyLeaves exEnv) n (compileU exEnv (.coll .list (.wrap .alias (.cls 0)))) x
+    = um (eraseEnv exEnv) (pyLeaves exEnv) n (.coll .list (.cls 0)) x :=
+  compile_sound_unmarshal exEnv _ _ (by decide) (by decide)
+/-- An undeclared class is outside the side condition, and the compiler says so. -/
+example : compilable exEnv (.cls 7) = false ∧ (compileU exEnv (.cls 7)).hasUnknown = true := by decide
 
 
 end Typelib.C05
